@@ -54,7 +54,8 @@ pub fn alpn_has_two_readings(h: &Hello) -> bool {
 /// 1 = the first and last hex digit of the value's bytes; 2 = "99" when the value starts outside ASCII
 pub fn ja4_reading(h: &Hello, original: bool, reading: u8) -> Ja4Ref {
     let ver = version_code(h);
-    let sni = if h.exts.iter().any(|e| matches!(e, Ext::Sni(_))) { 'd' } else { 'i' };
+    // the flag says that the server_name extension (type 0) is there, whatever its list holds
+    let sni = if h.exts.iter().any(|e| ext_type(e) == 0) { 'd' } else { 'i' };
     let ciphers: Vec<u16> = h.ciphers.iter().filter(|x| !is_grease(**x)).copied().collect();
     let etypes: Vec<u16> = h.exts.iter().map(ext_type).filter(|x| !is_grease(*x)).collect();
     let alpn = h.exts.iter().find_map(|e| if let Ext::Alpn(p) = e { p.first().cloned() } else { None });
